@@ -130,6 +130,19 @@ def cases(tier, seed):
         for nie in (None, 0, 4):
             for m in ('seq', 'j2', 'j20', 'j2vv'):
                 yield ['big', bad_at, nie, m]
+    # a layer child that is killed by a signal (also one without a name), all
+    # else being fine: the verdict is failed
+    for way in ('kill', 'segv', 'rtsig', 'exit0'):
+        for mode in ('j2', 'resumed'):
+            yield ['crash', way, mode]
+    # text on a child's real stderr AFTER its report (atexit hooks, shutdown
+    # messages) changes nothing
+    for shape in ('N1B2C1', 'A2B1i'):
+        nslots = len(ow.SHAPES[shape][1])
+        for sc in (['pass'] * nslots, ['pass'] * (nslots - 1) + ['fail'], ['error'] + ['pass'] * (nslots - 1)):
+            for m in ('seq', 'j2', 'j2vv'):
+                for late in (b'late text\n', b'Exception ignored in: <f>\nTraceback\n', b'no newline at the end'):
+                    yield [shape, sc, {}, [], m, [None, 'late', late.decode()]]
     # the exit status is a yes/no answer, however many things went wrong
     for n in (255, 256, 257, 512):
         yield ['cli_many', n, 'seq']
@@ -194,6 +207,11 @@ def setup_worker():
 
 def _mk_hook(cf, state):
     which, kind = cf[0], cf[1]
+    if kind == 'late':
+        def hook_late(layer, args):
+            state['hit'] = True
+            return ('mangle', lambda out, err: (out, err + cf[2].encode()))
+        return hook_late
 
     def hook(layer, args):
         i = state['n']
@@ -285,6 +303,17 @@ def run_imp_case(kind, m, with_layer):
 
 
 def run_case(case):
+    if case[0] == 'crash':
+        from vt.props import c07
+        spec = c07.crash_spec('test_body', case[1], case[2])
+        spec['tests'][3]['s'] = 'pass'       # nothing else is wrong in this run
+        res = runrt.run_cli(spec, ['-j2'] if case[2] == 'j2' else [], timeout=120)
+        viol = []
+        if res.rc != 1:
+            viol.append({'clause': 'exit_status', 'sig': {'part': 'crash', 'way': case[1], 'mode': case[2]},
+                         'detail': 'the child of layer B dies in a test body by %s (%s), everything else passes: exit status %r\n%s' % (case[1], case[2], res.rc, res.text[-800:])})
+        return {'evals': 1, 'nontrivial': 1, 'violations': viol, 'outcome': 'crash', 'nogate': True,
+                'counters': {'real_process_runs': 1}}
     if case[0] == 'big':
         _, bad_at, nie, m = case
         spec = ow.big_spec(nie=nie, scripts=['pass', 'pass', 'skip_body', 'xfail', 'skip_dec', 'sub:0,0,2'], bad_at=bad_at)
@@ -331,7 +360,9 @@ def run_case(case):
                if ow._triple(w[1].split('\n')[0]) is not None}
         sig['spoof_via'] = 'fd2' if via == {'fd2'} else 'stream:' + ','.join(sorted(via))
     child_fault_effective = False
-    if cf and state['hit']:
+    if cf and cf[1] == 'late':
+        pass                     # not a fault: the report is complete
+    elif cf and state['hit']:
         # the fault is real unless the mangled bytes equal the original report
         c = [c for c in res.children]
         child_fault_effective = True
